@@ -32,7 +32,7 @@
 (* and its special single-observation branch.  HmmMC.tla runs these        *)
 (* machines against the definition layer.                                  *)
 (***************************************************************************)
-EXTENDS Integers, Sequences, FiniteSets, FiniteSetsExt
+EXTENDS Integers, Sequences, FiniteSets, FiniteSetsExt, TLC
 
 RECURSIVE Pow(_, _)
 Pow(x, e) == IF e <= 0 THEN 1 ELSE x * Pow(x, e - 1)
@@ -133,7 +133,8 @@ SuffixSum(m, obs, t, s) ==
 \* Rows are sequences over the states (index s+1).
 
 \* --- Viterbi (viterbi_matrices / viterbi_traceback)
-VitRow0(m, o) == [k \in 1..m.s |-> Pi(m, k - 1) * B(m, k - 1, o)]
+\* (TLCEval: rows are built eagerly; a lazily evaluated row would be recomputed on every access)
+VitRow0(m, o) == TLCEval([k \in 1..m.s |-> Pi(m, k - 1) * B(m, k - 1, o)])
 FromRow0(m)   == [k \in 1..m.s |-> k - 1]
 
 \* the comparator handed to Iterator::max_by: -1 Less, 0 Equal, 1 Greater
@@ -153,12 +154,12 @@ VitBest(m, prev, j, best, k) ==
 
 VitPred(m, prev, j) == VitBest(m, prev, j, 0, 1)
 VitRow(m, prev, o)  ==
-    [k \in 1..m.s |-> LET a == VitPred(m, prev, k - 1)
-                      IN  prev[a + 1] * A(m, a, k - 1) * B(m, k - 1, o)]
-FromRow(m, prev)    == [k \in 1..m.s |-> VitPred(m, prev, k - 1)]
+    TLCEval([k \in 1..m.s |-> LET a == VitPred(m, prev, k - 1)
+                              IN  prev[a + 1] * A(m, a, k - 1) * B(m, k - 1, o)])
+FromRow(m, prev)    == TLCEval([k \in 1..m.s |-> VitPred(m, prev, k - 1)])
 
 \* the end term (factor 1 for models without end distribution)
-EndRow(m, row) == [k \in 1..m.s |-> row[k] * Eps(m, k - 1)]
+EndRow(m, row) == TLCEval([k \in 1..m.s |-> row[k] * Eps(m, k - 1)])
 
 \* Iterator::max_by_key also keeps the last maximum
 RECURSIVE LastArgMax(_, _, _)
@@ -179,18 +180,39 @@ RECURSIVE DotCol(_, _, _, _, _)
 \* sum_k prev[k] * A[k][j]  (k = 0..s-1)
 DotCol(m, prev, j, k, acc) ==
     IF k = m.s THEN acc ELSE DotCol(m, prev, j, k + 1, acc + prev[k + 1] * A(m, k, j))
-FwdRow(m, prev, o) == [k \in 1..m.s |-> DotCol(m, prev, k - 1, 0, 0) * B(m, k - 1, o)]
+FwdRow(m, prev, o) == TLCEval([k \in 1..m.s |-> DotCol(m, prev, k - 1, 0, 0) * B(m, k - 1, o)])
 RECURSIVE SumSeq(_, _, _)
 SumSeq(row, k, acc) == IF k > Len(row) THEN acc ELSE SumSeq(row, k + 1, acc + row[k])
 FwdFinal(m, row) == SumSeq(EndRow(m, row), 1, 0)
 
 \* --- backward (rows are stored in reverse time order, row 0 = end probabilities)
-BwdRow0(m) == [k \in 1..m.s |-> Eps(m, k - 1)]
+BwdRow0(m) == TLCEval([k \in 1..m.s |-> Eps(m, k - 1)])
 RECURSIVE DotRow(_, _, _, _, _, _)
 \* sum_k prev[k] * A[j][k] * B[k][o]
 DotRow(m, prev, j, o, k, acc) ==
     IF k = m.s THEN acc
     ELSE DotRow(m, prev, j, o, k + 1, acc + prev[k + 1] * A(m, j, k) * B(m, k, o))
-BwdRow(m, prev, o) == [k \in 1..m.s |-> DotRow(m, prev, k - 1, o, 0, 0)]
+BwdRow(m, prev, o) == TLCEval([k \in 1..m.s |-> DotRow(m, prev, k - 1, o, 0, 0)])
 BwdFinal(m, row, o) == SumSeq([k \in 1..m.s |-> row[k] * Pi(m, k - 1) * B(m, k - 1, o)], 1, 0)
+
+\* ---- the machines run to completion (used by the trace validation: every traced
+\* input also re-checks machine = definition, and a reported Viterbi path that is
+\* optimal but not the machine's path is flagged as model drift, not as a violation)
+RECURSIVE VitRun(_, _, _, _, _)
+VitRun(m, obs, i, rows, from) ==
+    IF i = Len(obs) THEN <<rows, from>>
+    ELSE VitRun(m, obs, i + 1, Append(rows, VitRow(m, rows[i], obs[i + 1])), Append(from, FromRow(m, rows[i])))
+MachineViterbi(m, obs) ==
+    LET rf   == VitRun(m, obs, 1, <<VitRow0(m, obs[1])>>, <<FromRow0(m)>>)
+        T    == Len(obs)
+        lrow == EndRow(m, rf[1][T])
+        last == VitLast(lrow)
+    IN  [p |-> lrow[last + 1], path |-> VitTrace(rf[2], T, last, <<last>>)]
+RECURSIVE FwdRun(_, _, _, _)
+FwdRun(m, obs, i, row) == IF i = Len(obs) THEN row ELSE FwdRun(m, obs, i + 1, FwdRow(m, row, obs[i + 1]))
+MachineForward(m, obs) == FwdFinal(m, FwdRun(m, obs, 1, FwdRow0(m, obs[1])))
+RECURSIVE BwdRun(_, _, _, _)
+BwdRun(m, obs, i, row) ==      \* row = beta_{T-i+1}; stops at beta_1
+    IF i = Len(obs) THEN row ELSE BwdRun(m, obs, i + 1, BwdRow(m, row, obs[Len(obs) - i + 1]))
+MachineBackward(m, obs) == BwdFinal(m, BwdRun(m, obs, 1, BwdRow0(m)), obs[1])
 =============================================================================
